@@ -54,6 +54,7 @@ func (s *sessionMetadatasState) mergeSessions(sessions []*api.SessionMetadatas) 
 func (s *sessionMetadatasState) dump(event *api.StateBroadcastEvent) {
 	sessions := s.All()
 	for _, session := range sessions {
+		session := session
 		event.SessionMetadatas = append(event.SessionMetadatas, &session)
 	}
 }
@@ -182,6 +183,7 @@ func (s *sessionMetadatasState) DeletePeer(peer uint64) error {
 
 	event := &api.StateBroadcastEvent{SessionMetadatas: []*api.SessionMetadatas{}}
 	for _, session := range sessions {
+		session := session
 		session.LastDeleted = clock()
 		event.SessionMetadatas = append(event.SessionMetadatas, &session)
 		s.set(session)
